@@ -14,7 +14,7 @@ from checks._c17_common import (IDS, IOS, tok2id, strip, strings, io_flags, dist
                                 fresh_process)
 from checks._c17_seams import run_cmd, ok, snapshot, snap_file, write, read
 
-EPS = 1e-9
+EPS = 1e-6  # printed figures may come out of float32 arithmetic; distinct admissible values differ by far more
 
 
 # =========================================================================================
